@@ -11,11 +11,11 @@ RULE = ('(table) the full product local tls_enable x require_tls {None,True,Fals
         '{ok, fails} x side {active, passive} x peer certificate {none, matching IP SAN} is enumerated against a scripted '
         'peer (96 cells).  (certificates) Hypothesis draws the SAN multiset of the peer certificate over {IP matching the '
         'peer address, other IP, DNS names, URI equal to the announced node ID, other URI, none, no certificate at all}, '
-        'the announced node ID, require_host_authn x require_node_authn, side; certificates are built with '
+        'the announced node ID, require_host_authn x require_node_authn, side, connect by address or by host name; certificates are built with '
         'cryptography.x509 and handed over by a scripted TLS socket.  Oracle = independent policy function from the '
         'property text: TLS attempted <=> both offer; require_tls=True never proceeds in clear, False never secured; '
         'under TLS established <=> no presented identifier of a kind we hold a reference for contradicts it AND '
-        '(host required => an IP/DNS identifier matches) AND (node required => a URI identifier matches); otherwise '
+        '(host required => an IP or DNS identifier matches) AND (node required => a URI identifier matches); otherwise '
         'SESS_TERM contact-failure or close and never established.  Observed: SESS_INIT on the wire, '
         'session_state_changed(established), is_secure(), authn_* of get_session_parameters().  Non-trivial = TLS '
         'attempted and the certificate carries >= 1 SAN; distinct by SHA-1 of the case.')
@@ -23,10 +23,11 @@ LEVEL = 'exploration'
 ASSUMPTIONS = [
     'real TLS handshakes, cipher/version settings and chain validation by OpenSSL are replaced by a scripted socket '
     '(only Config.get_ssl_context() is overridden); the decision logic is what is tabulated',
-    'the peer is reached by literal IP address, as tcpcl.agent.Agent.connect() always does (it passes the resolved '
-    'address to the handler), so no DNS-ID reference exists and DNS SANs can neither match nor contradict',
+    'tcpcl.agent.Agent.connect() always hands the resolved address to the handler (no DNS-ID reference: DNS SANs can '
+    'neither match nor contradict); by_name cases construct the active handler with the host name node.example instead, '
+    'which is the only way a DNS-ID reference arises',
 ]
-EXHAUSTIVE_PART = 'TLS negotiation table: 96 cells against a scripted peer, and the 12 x 12 = 144 pairs of cells with two real endpoints'
+EXHAUSTIVE_PART = 'TLS negotiation table: 96 cells against a scripted peer, the 12 x 12 = 144 pairs of cells with two real endpoints, and every certificate with <= 2 SAN entries (29 sets) x side x connect-by-name x require_host x require_node'
 
 PEER_ADDR = '10.0.0.2'      # address of the scripted peer when the real endpoint is active
 PEER_ADDR_PASSIVE = '10.0.0.1'
@@ -53,12 +54,19 @@ def strategy(tier):
         'req_host': st.booleans(),
         'req_node': st.booleans(),
         'require_tls': st.sampled_from([None, True]),
+        # the handler was given a host name (node.example) rather than the literal address: a DNS-ID reference exists
+        'by_name': st.booleans(),
     })
 
 
 def enumerate_cases(tier):
     for case in pair_cases():
         yield case
+    # every certificate with at most two SAN entries x side x connect-by-name x what is required
+    combos = [()] + [(k,) for k in SAN_KINDS] + list(itertools.combinations(SAN_KINDS, 2))
+    for sans, active, by_name, req_host, req_node in itertools.product(combos, (False, True), (False, True), (False, True), (False, True)):
+        yield {'kind': 'cert', 'active': active, 'sans': list(sans), 'nodeid': 'dtn://peer/', 'req_host': req_host,
+               'req_node': req_node, 'require_tls': None, 'by_name': by_name}
     for active, enable, require, peer_can, hs, cert in itertools.product(
             (False, True), (False, True), (None, True, False), (False, True), ('ok', 'fail'), (None, ['ip-match'])):
         yield {'kind': 'table', 'active': active, 'tls_enable': enable, 'require_tls': require, 'peer_can_tls': peer_can,
@@ -147,14 +155,18 @@ def policy(case, peer_addr):
     kinds = sans or []
     ip_present = any(k.startswith('ip-') for k in kinds)
     ip_match = 'ip-match' in kinds
+    # a DNS name of the peer is known only to the active side, and only when it was told to connect to a name
+    dns_ref = bool(case.get('by_name')) and bool(case.get('active'))
+    dns_present = dns_ref and any(k.startswith('dns-') for k in kinds)
+    dns_match = dns_ref and 'dns-a' in kinds
     uri_present = any(k.startswith('uri-') for k in kinds)
     # 'uri-match' carries the announced node id (or a placeholder when the peer announces an empty id)
     uri_match = 'uri-match' in kinds and bool(nodeid)
     if not nodeid and 'uri-match' in kinds:
         uri_match = False
-    contradiction = (ip_present and not ip_match) or (uri_present and not uri_match)
+    contradiction = (ip_present and not ip_match) or (dns_present and not dns_match) or (uri_present and not uri_match)
     ok = not contradiction
-    if case.get('req_host') and not ip_match:
+    if case.get('req_host') and not (ip_match or dns_match):
         ok = False
     if case.get('req_node') and not uri_match:
         ok = False
@@ -222,7 +234,7 @@ def execute(case):
     script = {'handshake': case.get('handshake', 'ok'), 'peer_cert_der': der}
     cfg = tw.make_config('dtn://real/', tls_script=script, tls_enable=enable, require_tls=case.get('require_tls'),
                          require_host_authn=bool(case.get('req_host')), require_node_authn=bool(case.get('req_node')))
-    world = tw.World(cfg, scripted=True, real_is_passive=not active)
+    world = tw.World(cfg, scripted=True, real_is_passive=not active, peer_name='node.example' if case.get('by_name') else None)
     end = world.real
     hdl = end.hdl
     world.settle()
@@ -282,6 +294,8 @@ def execute(case):
                 kinds = sans or []
                 if ('ip-match' in kinds) != bool(params.get('authn_ipaddrid')):
                     out.fail('authn-ipaddrid-param', 'authn_ipaddrid=%r with SANs %s' % (params.get('authn_ipaddrid'), kinds))
+                if (bool(case.get('by_name')) and active and 'dns-a' in kinds) != bool(params.get('authn_dnsid')):
+                    out.fail('authn-dnsid-param', 'authn_dnsid=%r with SANs %s (by name: %s)' % (params.get('authn_dnsid'), kinds, case.get('by_name')))
                 if ('uri-match' in kinds and bool(nodeid)) != bool(params.get('authn_nodeid')):
                     out.fail('authn-nodeid-param', 'authn_nodeid=%r with SANs %s' % (params.get('authn_nodeid'), kinds))
     out.nontrivial = want['attempt'] and want['secured'] and bool(sans)
@@ -289,6 +303,10 @@ def execute(case):
               'proceed' if want['proceed'] else 'refused', 'estab' if want['established'] else 'not-estab')
     if sans is None and want['secured']:
         out.label('no-peer-certificate')
+    if case.get('by_name') and active:
+        out.label('dns-reference')
+        if want['secured'] and {'dns-a', 'dns-b'} & set(sans or []) and {'ip-match', 'ip-other'} & set(sans or []):
+            out.label('dns-and-ip-san')
     for kind in sans or []:
         out.label('san:' + kind)
     return out
